@@ -71,17 +71,29 @@ def _grad_points(recipe, val, names):
     point = {n: val[n] for n in names["vars"]}
     out = []
     grads = []
-    for w in names["vars"] + ["__unused"]:
-        wv = b.S(("var", w)) if w != "__unused" else Variable("__unused")
+    def one(w, wv, keep=True):
         try:
             g = gradient(e, wv)
-            grads.append((w, g))
+            if keep:
+                grads.append((w, g))
             gv = g.evaluate(point)
             out.append((w, gv, None))
         except SymbolicConcretisation as ex:
             out.append((w, None, ex))
         except Exception as ex:  # noqa: BLE001
             out.append((w, None, ex))
+
+    for i, w in enumerate(names["vars"] + ["__unused"]):
+        wv = b.S(("var", w)) if w != "__unused" else Variable("__unused")
+        # the variable to differentiate by, also given as an EQUAL BUT DISTINCT object (a handle re-created from its
+        # name, as from a solution's keys): variables are identified by name.  Alternately before / after the original.
+        twin = Variable(w, lb=getattr(wv, "lb", None), ub=getattr(wv, "ub", None))
+        if i % 2 == 0:
+            one(w + "@twin", twin, keep=False)
+            one(w, wv)
+        else:
+            one(w, wv)
+            one(w + "@twin", twin, keep=False)
     if b.params and all(n + "'" in val for n in b.params):
         # the derivative expression is of the expression AS IT IS NOW: parameters updated after
         # differentiation contribute their new value (and 0 / 1 simplifications must not have used the old one)
@@ -110,6 +122,8 @@ def check_recipe(recipe, planted=False):
     for dec, labels, pc, out in paths:
         for w_, gv, exc in out:
             w, val = (w_[:-3], val1) if w_.endswith("@p'") else (w_, val0)
+            if w.endswith("@twin"):
+                w = w[:-5]
             if exc is not None:
                 if isinstance(exc, SymbolicConcretisation):
                     # only acceptable where the formula itself is undefined (e.g. log(0.0))
@@ -336,6 +350,9 @@ def replay(payload):
                     continue
                 if w.startswith("__unused"):
                     ref, ok = 0.0, True
+                elif w.endswith("@twin"):
+                    r, ok = K.concrete_ref(recipe, pt, diff=1, wrt=w[:-5])
+                    ref = K.tangent(r)
                 elif w.endswith("@p'"):
                     r, ok = K.concrete_ref(recipe, {**pt, **{n: pt[n + "'"] for n in names["params"]}}, diff=1, wrt=w[:-3])
                     ok = ok and K.concrete_ref(recipe, pt, diff=1, wrt=w[:-3])[1]
